@@ -255,6 +255,7 @@ const PATTERN_FIRST: TokenSet = expressions::LITERAL_FIRST
         T![&],
         T![_],
         T![-],
+        T![~],
         T![.],
     ]));
 
